@@ -649,10 +649,18 @@ def chess_evalcalls(board=None, extra=None):
         v = ints(args)
         return ("pos", v[0], v[1]) if v is not None else None
 
+    def _made(a):
+        # Position::new_assert(r, c) / new_unsafe(r, c) with a symbolic component: row and col are still its arguments
+        return a[0] == "call" and str(a[1]).endswith(("Position::new_assert", "Position::new_unsafe")) and len(a[2]) == 2
+
     def prow(args):
+        if args and _made(args[0]):
+            return args[0][2][0]
         return ("lit", args[0][1]) if args and args[0][:1] == ("pos",) else None
 
     def pcol(args):
+        if args and _made(args[0]):
+            return args[0][2][1]
         return ("lit", args[0][2]) if args and args[0][:1] == ("pos",) else None
 
     def pidx(args):
